@@ -4,5 +4,5 @@ CONSTANTS
   Vals = {0, 1, 2}
 INVARIANT SortUnique SortIdempotent PairLaws
 INVARIANT UnionLaws InterLaws DiffLaws UniqueLaws FreqLaws ContractSharp Unsorted
-INVARIANT LimbOrder ByteOrder
+INVARIANT LimbOrder ByteOrder KernelLaws PeekLaws
 CHECK_DEADLOCK FALSE
